@@ -132,7 +132,7 @@ Definition smonitor_trace (sp : spec) (pull : bool) (nsk : nat) (tr : list event
 Definition run_pipe_spec := run_pipe.
 
 (** ** Thread experiments (C18, C19) *)
-From CB Require Export ThreadSpec ThreadsFine ThreadsTakeMerge ThreadsTakeCombine.
+From CB Require Export ThreadSpec ThreadsFine ThreadsTakeMerge ThreadsTakeCombine ThreadsTakeMergeFine.
 
 Inductive tsys : Type :=
 | TsTake (fixed : bool) (max : nat)
@@ -142,7 +142,8 @@ Inductive tsys : Type :=
 | TsMergeFine (fixed : bool) (n : nat)    (* merge with the talkback cells as scheduling points (free=1) *)
 | TsTakeFine (max : nat)                  (* take, likewise *)
 | TsCombineFine (fixed : bool) (n : nat)  (* combine, likewise: the stuttering extension *)
-| TsTakeCombine (fixed : bool) (max : nat) (n : nat).   (* take(max) behind combine of n members *)
+| TsTakeCombine (fixed : bool) (max : nat) (n : nat)    (* take(max) behind combine of n members *)
+| TsTakeMergeFine (max : nat) (n : nat).               (* take behind merge, every access a step (free=1) *)
 
 Definition trun (sys : tsys) (nth : nat) (qs : nat -> list val) (fins : nat -> final)
   (sch : list nat) (fuel : nat) : list tevent * list tviol :=
@@ -172,6 +173,9 @@ Definition trun (sys : tsys) (nth : nat) (qs : nat -> list val) (fins : nat -> f
   | TsTakeCombine fixed max n =>
       let s := run_full (xc_step fixed max n) xc_finished nth sch fuel (xc_init n qs fins) in
       let tr := rev (xcs_tr s) in (tr, takecombine_check max n qs tr)
+  | TsTakeMergeFine max n =>
+      let s := run_full (xf_step max n) xf_finished nth sch fuel (xf_init n qs fins) in
+      let tr := rev (xfs_tr s) in (tr, takemerge_check max tr)
   end.
 
 (** the checks alone, for traces recorded from the real crate *)
@@ -186,12 +190,13 @@ Definition tcheck (sys : tsys) (qs : nat -> list val) (fins : nat -> final) (tr 
   | TsTakeFine max => take_check max tr
   | TsCombineFine _ n => combine_check n qs fins tr
   | TsTakeCombine _ max n => takecombine_check max n qs tr
+  | TsTakeMergeFine max _ => takemerge_check max tr
   end.
 
 (** for exhaustive exploration by the driver: one step, which threads can move *)
 Inductive tstate : Type :=
 | TSt_take (s : tk_state) | TSt_merge (s : mg_state) | TSt_combine (s : cb_state)
-| TSt_mfine (s : mf_state) | TSt_xm (s : xm_state) | TSt_cbfine (s : stut cb_state) | TSt_xc (s : xc_state).
+| TSt_mfine (s : mf_state) | TSt_xm (s : xm_state) | TSt_cbfine (s : stut cb_state) | TSt_xc (s : xc_state) | TSt_xf (s : xf_state).
 
 Definition tinit (sys : tsys) (qs : nat -> list val) (fins : nat -> final) : tstate :=
   match sys with
@@ -203,6 +208,7 @@ Definition tinit (sys : tsys) (qs : nat -> list val) (fins : nat -> final) : tst
   | TsTakeFine _ => TSt_take (tk_init qs)
   | TsCombineFine _ n => TSt_cbfine (stut_init (cb_init n qs fins))
   | TsTakeCombine _ _ n => TSt_xc (xc_init n qs fins)
+  | TsTakeMergeFine _ n => TSt_xf (xf_init n qs fins)
   end.
 
 Definition tstep1 (sys : tsys) (st : tstate) (t : nat) : tstate :=
@@ -214,6 +220,7 @@ Definition tstep1 (sys : tsys) (st : tstate) (t : nat) : tstate :=
   | TsTakeFine max, TSt_take s => TSt_take (tkf_step max s t)
   | TsCombineFine fixed n, TSt_cbfine s => TSt_cbfine (stut_step (cb_step fixed n) s t)
   | TsTakeCombine fixed max n, TSt_xc s => TSt_xc (xc_step fixed max n s t)
+  | TsTakeMergeFine max n, TSt_xf s => TSt_xf (xf_step max n s t)
   | TsTakeMerge fixed max n, TSt_xm s => TSt_xm (xm_step fixed max n s t)
   | _, _ => st
   end.
@@ -227,6 +234,7 @@ Definition tfinished (st : tstate) (t : nat) : bool :=
   | TSt_xm s => xm_finished s t
   | TSt_cbfine s => stut_finished cb_finished s t
   | TSt_xc s => xc_finished s t
+  | TSt_xf s => xf_finished s t
   end.
 
 Definition ttrace (st : tstate) : list tevent :=
@@ -238,4 +246,5 @@ Definition ttrace (st : tstate) : list tevent :=
   | TSt_xm s => rev (xms_tr s)
   | TSt_cbfine s => rev (cbs_tr (st_base s))
   | TSt_xc s => rev (xcs_tr s)
+  | TSt_xf s => rev (xfs_tr s)
   end.
